@@ -296,6 +296,7 @@ func init() {
 		Run: func(c *core.Ctx) []ob {
 			out := scanEncRed(c)
 			out = append(out, core.Floor("ENCRED", nil, "raw []uint64 stores", c.Stats["encred_stores"], 2)...)
+			out = append(out, control(c, "ENCRED", scanEncRed, "encodeRaw")...)
 			return out
 		}})
 }
